@@ -43,6 +43,13 @@ func rootIdent(e ast.Expr) *ast.Ident {
 			e = x.X
 		case *ast.UnaryExpr:
 			e = x.X
+		case *ast.CallExpr:
+			// s.M(...)[k], s.M(...).f: what a method of the receiver returns may alias the receiver's state
+			sel, ok := x.Fun.(*ast.SelectorExpr)
+			if !ok {
+				return nil
+			}
+			e = sel.X
 		default:
 			return nil
 		}
@@ -139,6 +146,16 @@ func analyzeEffects(fs *fileSet) (getterWrites []string, copyGetters map[string]
 		ast.Inspect(fi.decl.Body, func(n ast.Node) bool {
 			switch st := n.(type) {
 			case *ast.AssignStmt:
+				if len(st.Lhs) == 2 && len(st.Rhs) == 1 && st.Tok == token.DEFINE {
+					// `x, ok := s.M()[k]` / `x, ok := s.m[k]`
+					if ix, isIx := st.Rhs[0].(*ast.IndexExpr); isIx {
+						if id, ok := st.Lhs[0].(*ast.Ident); ok {
+							if c := classify(fi, rootIdent(ix)); c != "" {
+								fi.alias[id.Name] = c
+							}
+						}
+					}
+				}
 				if len(st.Lhs) == len(st.Rhs) {
 					for i, l := range st.Lhs {
 						id, ok := l.(*ast.Ident)
@@ -157,6 +174,21 @@ func analyzeEffects(fs *fileSet) (getterWrites []string, copyGetters map[string]
 						case *ast.SelectorExpr, *ast.IndexExpr, *ast.UnaryExpr, *ast.StarExpr:
 							if c := classify(fi, rootIdent(st.Rhs[i])); c != "" && st.Tok == token.DEFINE {
 								fi.alias[id.Name] = c
+							}
+						}
+					}
+				}
+			case *ast.FuncLit:
+				// parameters of pointer / slice / map type of a function literal inside a method: conservatively, they may
+				// be handed state of the receiver
+				if fi.recv != "" {
+					for _, p := range st.Type.Params.List {
+						switch p.Type.(type) {
+						case *ast.StarExpr, *ast.ArrayType, *ast.MapType:
+							for _, n := range p.Names {
+								if _, taken := fi.alias[n.Name]; !taken {
+									fi.alias[n.Name] = "recv"
+								}
 							}
 						}
 					}
@@ -190,6 +222,13 @@ func analyzeEffects(fs *fileSet) (getterWrites []string, copyGetters map[string]
 				name := calleeName(st)
 				if id, ok := st.Fun.(*ast.Ident); ok && id.Name == "delete" && len(st.Args) > 0 {
 					markWrite(fi, classify(fi, rootIdent(st.Args[0])))
+				}
+				// `append(x.f, …)` with a slice reachable from the receiver / a parameter as first argument may write into the
+				// spare capacity of that slice's backing array, whatever is done with the result
+				if id, ok := st.Fun.(*ast.Ident); ok && id.Name == "append" && len(st.Args) > 1 {
+					if first := rootIdent(st.Args[0]); first != nil && !fi.fresh[first.Name] {
+						markWrite(fi, classify(fi, first))
+					}
 				}
 				ci := callInfo{callee: name, args: st.Args}
 				if sel, ok := st.Fun.(*ast.SelectorExpr); ok {
